@@ -81,8 +81,10 @@ PROPS = {
     "C14": dict(level="other", extra=lambda prog, S, tier, seed: [__import__("extras").run_child("csv_roundtrip", REPO, seed, 150 if tier == "quick" else 3000)]),
     "C15": dict(level="other", extra=lambda prog, S, tier, seed: [__import__("extras").run_child("generator_shape", REPO, seed, 40 if tier == "quick" else 600)]),
     "C08": dict(level="other", scans=_scan_suspend, native_budget=30,
-                extra=lambda prog, S, tier, seed: [__import__("extras").run_children("config_sweep", REPO, seed, 96 if tier == "quick" else 600, procs=12, timeout=3000)]),
-    "C12": dict(level="other", scans=_scan_suspend, native_budget=30),
+                extra=lambda prog, S, tier, seed: [__import__("extras").run_children("config_sweep", REPO, seed, 96 if tier == "quick" else 600, procs=12, timeout=3000),
+                                                    __import__("extras").run_child("get_pool_exhaustive", REPO)]),
+    "C12": dict(level="other", scans=_scan_suspend, native_budget=30,
+                extra=lambda prog, S, tier, seed: [__import__("extras").run_child("get_pool_exhaustive", REPO)]),
     "C16": dict(scans=_scan_suspend, native_budget=25),
     "C17": dict(scans=_scan_suspend),
     "C18": dict(scans=_scan_suspend, native_budget=25),
